@@ -479,6 +479,10 @@ class RestAPI(object):
                     )
                     return aws_error("StateMachineDoesNotExist"), 400
 
+                # Collect the changes and only apply them once the whole request
+                # has been validated, so a rejected update leaves the store as it was.
+                updates = {}
+
                 role_arn = params.get("roleArn")
                 if role_arn:
                     if not valid_role_arn(role_arn):
@@ -488,7 +492,7 @@ class RestAPI(object):
                             )
                         )
                         return aws_error("InvalidArn"), 400
-                    state_machine["roleArn"] = role_arn
+                    updates["roleArn"] = role_arn
 
                 definition = params.get("definition", "")
                 if definition:
@@ -515,7 +519,7 @@ class RestAPI(object):
                         return aws_error("InvalidDefinition"), 400
 
                     # TODO ASL Validator??
-                    state_machine["definition"] = definition
+                    updates["definition"] = definition
 
                 if not role_arn and not definition:
                     self.logger.warning(
@@ -524,8 +528,9 @@ class RestAPI(object):
                     return aws_error("MissingRequiredParameter"), 400
 
                 update_date = time.time()
-                state_machine["updateDate"] = update_date
+                updates["updateDate"] = update_date
 
+                state_machine.update(updates)
                 self.asl_store[state_machine_arn] = state_machine
 
                 resp = {"updateDate": update_date}
